@@ -352,13 +352,11 @@ def coq_queries(an):
 
 def case_file(ans):
     return (L.HEADER + "Definition cases : list case := [\n%s\n].\n"
-            "Eval vm_compute in (mismatches cases).\nEval vm_compute in (all_classes cases).\n"
-            "Eval vm_compute in (all_alpha cases).\nEval vm_compute in (all_regressed cases).\n"
-            "Eval vm_compute in (all_alpha_multi cases).\n"
+            "Eval vm_compute in (all_results cases).\n"
             % ";\n".join(L.g_case(an.p, coq_queries(an), an.new_name) for an in ans))
 
 
-def coq_results(ctx, ans, chunk=6):
+def coq_results(ctx, ans, chunk=2):
     """per analysis: ([(query index, code)], [class per query], [alpha class per query])"""
     bodies = [case_file(ans[i:i + chunk]) for i in range(0, len(ans), chunk)]
     outs = ctx.coq_files_parallel(bodies) if len(bodies) > 1 else [ctx.coq_file(b) for b in bodies]
@@ -366,10 +364,10 @@ def coq_results(ctx, ans, chunk=6):
     for k, out in enumerate(outs):
         n = len(ans[k * chunk:(k + 1) * chunk])
         ev = parse_evals(out)
-        if len(ev) != 5 or any(len(x) != n for x in ev):
+        if len(ev) != 1 or len(ev[0]) != n:
             raise RuntimeError("unexpected coqc output:\n" + out[-2000:])
-        for i in range(n):
-            res.append((list(ev[0][i]), ev[1][i], [a if a else b for a, b in zip(ev[2][i], ev[4][i])], ev[3][i]))
+        for (bad, classes, alpha, regressed, multi) in ev[0]:
+            res.append((list(bad), classes, [a if a else b for a, b in zip(alpha, multi)], regressed))
     return res
 
 
@@ -1007,8 +1005,18 @@ def report(ctx, an, code, classes):
     bad = 0
     for (m, t, nn, kw, o, probs) in an.queries:
         if probs:
-            bad += 1
             focus = focus_of(an, m, t, o, probs)
+            if focus is None and an.stream != "replay" and not kw:
+                # all queries of a project share one rope project (changes performed and undone in between); rope's
+                # inference can go stale after edits (C02-stale-attribute-after-edit, C13).  C01 quantifies over
+                # programs and offsets: the verdict counts only if a FRESH project gives it too.
+                import random as _r
+                fresh = analyse(ctx, an.files, an.entry, _r.Random(0), "replay",
+                                only=(m.path, t.offset if t is not None else None, nn))
+                if fresh is not None and not fresh.queries[0][5]:
+                    ctx.count("failure_only_in_the_long_lived_project:not_in_a_fresh_one")
+                    continue
+            bad += 1
             ctx.count("oracle_failures:" + (focus or "unexplained"))
             if not ctx.too_many():
                 ctx.violation(replay_obj(an, m, t, nn, o, probs, focus),
@@ -1069,8 +1077,8 @@ def run(ctx):
             ctx.count("collector_cases")
         ctx.traces += len(chunk)
     # ---- projects
-    n_main = ctx.scale(7, 60)
-    n_plus = ctx.scale(7, 48)
+    n_main = ctx.scale(10, 90)
+    n_plus = ctx.scale(10, 80)
     plan = [("fixed", dict(pr), ()) for pr in FIXED]
     for _ in range(n_main):
         plan.append(("main", None, ()))
